@@ -17,7 +17,7 @@ are evaluated on checksum-covered byte ranges taken from the files and compared 
 """
 import collections, hashlib, json, os, shutil
 import vlib, histlib, histgen, h5spec
-from props import c05spec
+from props import c05spec, c05walk
 from histlib import ESZ, SIGNED, UNLIMITED, prod, hx
 
 TRUSTED = ["C05: tools/h5spec.py (independent decoder: my reading of the HDF5 File Format Specification 3.0), tools/histlib.py oracle, hist harness glue",
@@ -317,6 +317,19 @@ def judge_file(case, r):
             problems.append("bounds: %s of %s at [%d,%d) is not inside the file (size %d)" % (kind, owner, s, e, size))
     for a, b in h5spec.overlaps(res["extents"])[:4]:
         problems.append("overlap: %s of %s at [%d,%d) overlaps %s of %s at [%d,%d)" % (a[2], a[3], a[0], a[1], b[2], b[3], b[0], b[1]))
+    # New-style (dense) groups are not implemented by tools/h5spec.py (it raises Unsupported).  The generators avoid them
+    # (dense=False), but a "duplicate request" aimed at a name whose earlier creation was refused (e.g. name heap full)
+    # can succeed and create one.  Such a file cannot be judged by this walker: it is counted (stats: unjudged_dense),
+    # its other clauses (bounds, overlap of what was visited) still gate, the unsupported error and the tree comparison do not.
+    has_dense = any(o.kind == "group" and getattr(o, "dense", False) for o in orc.objs.values())
+    unsup_dense = [e for e in res["errors"] if e.startswith("unsupported: ") and e.endswith("new-style group")]
+    if has_dense and unsup_dense:
+        for e in [e for e in res["errors"] if e not in unsup_dense][:6]:
+            problems.append("consistency: " + e)
+        tags = {}
+        for t, wh, de in res["deviations"]:
+            tags.setdefault(t, (wh, de))
+        return dict(problems=problems, tags=tags, res=res, unjudged_dense=True)
     for e in res["errors"][:6]:
         problems.append("consistency: " + e)
     problems += compare_tree(orc, res)[:8]
@@ -598,8 +611,9 @@ def run(ctx):
     nontrivial = set()
     first_bad, nbad, first_unlisted = None, 0, {}
     samples, vectors = [], []
-    nfiles = nextents = 0
+    nfiles = nextents = unjudged_dense = 0
     structs = []
+    walk_tie = c05walk.WalkTie(ctx)         # whole-file tie: the Coq walker Spec/Walk.v on a sample of the files
     try:
         for c, r in produce(H, cases + vcases):
             j = judge_vlen(c, r) if "datasets" in c else judge_file(c, r)
@@ -617,6 +631,10 @@ def run(ctx):
             else:
                 nsucc = sum(1 for o, x in zip(c["ops"], r["results"]) if x.get("ok") and o["op"] not in ("close", "dump", "reopen"))
             res = j["res"]
+            if j.get("unjudged_dense"):
+                unjudged_dense += 1
+            else:
+                walk_tie.offer(c, res)
             if nsucc >= 2 and res is not None:
                 nontrivial.add(hashlib.sha256(res["data"]).hexdigest())
             if res is not None:
@@ -697,19 +715,26 @@ def run(ctx):
     else:
         side_ok += 1
     # the Coq specification decoders (Spec/Format*.v) on the structures of the written files and of reference files
-    spec_viol, spec_cov = spec_tie(H, ctx, structs)
+    # ... and, at the same time (separate coqc processes), the Coq whole-file walker on a sample of the complete files
+    import concurrent.futures as _cf
+    with _cf.ThreadPoolExecutor(1) as _ex:
+        _fut = _ex.submit(walk_tie.finish)
+        spec_viol, spec_cov = spec_tie(H, ctx, structs)
+        walk_viol, walk_cov = _fut.result()
     viol += spec_viol
+    viol += walk_viol
     cov = dict(evaluations=nfiles, distinct_nontrivial=len(nontrivial),
                rule="one evaluation = one closed file written by the real library from a generated API history, walked by the independent decoder "
                     "(bounds, disjointness, consistency, decoded tree == oracle, deviation tags within the known list); a file is non-trivial when at least two "
                     "mutating calls succeeded; distinct = distinct file contents (sha256)",
                samples=[dict(sb=c["sb"], gen=c["gen"], ops=[histcheck_short(o) for o in c["ops"][:8]], nops=len(c["ops"])) for c in cases[:1] + cases[200:201]] +
                        [dict(sb=c["sb"], gen="vlen", datasets=[dict(d, vals=d["vals"][:3]) for d in c["datasets"][:2]]) for c in vcases[:1]],
-               superblock_versions=dict(sbs), generators=dict(gens), extents_total=nextents, structure_kinds=dict(kinds),
+               superblock_versions=dict(sbs), generators=dict(gens), extents_total=nextents, unjudged_new_style_group_files=unjudged_dense, structure_kinds=dict(kinds),
                deviation_tags=dict(tagcount), files_failing=nbad, coq_extent_lists=len(samples), coq_checksum_vectors=len(vectors),
                checksum_vector_algos=dict(collections.Counter(a for a, b, s in vectors)),
                side_obligations=side, side_discharged=side_ok, programs=nfiles, disagreements_checked=nfiles)
     cov.update(spec_cov)
+    cov.update(walk_cov)
     return dict(violations=viol, known=known_lines, coverage=cov)
 
 
